@@ -37,6 +37,10 @@ PROPS = {
     "C06": {"level": "exploration", "assumptions": SIM_ASSUME, "parts": [sim("TestC06")]},
     "C07": {"level": "exploration", "assumptions": SIM_ASSUME, "parts": [sim("TestC07Sim")]},
     "C08": {"level": "exploration", "assumptions": SIM_ASSUME, "parts": [sim("TestC08", q=(300, 4), t=(4000, 16))]},
+    "C09": {"level": "fault_enumeration", "min_nontrivial": 10,
+            "assumptions": ["the kernel's rename(2) is atomic; durability against power loss (no fsync) is outside the statement", "strace syscall fault injection (thorough and quick fault part); SIGKILL as the crash model", "snapshots are produced by a pure function shared by the saving child and the checking parent"],
+            "parts": [rp("storefs", "TestC09Readers", (25, 2), (300, 8), helpers=["cmd/vhelper"]), rp("storefs", "TestC09Kill", (80, 2), (1500, 8), helpers=["cmd/vhelper"]),
+                      rp("storefs", "TestC09Faults", (30, 2), (500, 8), helpers=["cmd/vhelper"])]},
     "C14": {"level": "exploration", "assumptions": PURE_ASSUME + ["HMAC-SHA256 is unforgeable; the run's secret never appears in a generated invalid credential unless the harness itself signs with it", "route discovery through the verif-only server.Routes hook + chi.Walk"],
             "parts": [rp("httpauth", "TestC14", (3000, 2), (60000, 8))]},
     "C15": {"level": "exploration", "assumptions": SIM_ASSUME, "parts": [sim("TestC15", q=(250, 4), t=(3000, 16))]},
